@@ -78,7 +78,7 @@ COMPANION = """type Ca;
 pred cp(Ca, Ca);
 pred cq(Ca);
 rule {
-    if cp(x, y);
+    if cp(x, _);
     then cq(x);
 }
 rule {
